@@ -118,3 +118,24 @@ Definition nuts_transition_kinds (d : nat) (merges : list nat) : list Z :=
   repeat 0 d ++ [1] ++ concat (map (fun m => [2] ++ repeat 3 m ++ [2]) merges).
 Definition nuts_run_kinds (d : nat) (transitions : list (list nat)) : list Z :=
   repeat 0 d ++ concat (map (nuts_transition_kinds d) transitions).
+
+(* ---- acceptance term of a leaf (build_tree, j = 0), after repair D10:
+     let r = exp(joint - joint_0);  alpha = if r.is_nan() { 0 } else { T::min(1, r) }
+   (T::min(1, r) for a non-NaN r: r if r < 1, else 1).  The ratio r is taken as computed (exp is the
+   platform's); generic in the format ---- *)
+Section LeafAlpha.
+  Variables prec emax : Z.
+  Context (Hprec : FLX.Prec_gt_0 prec) (Hmax : BinarySingleNaN.Prec_lt_emax prec emax).
+  Notation fl := (binary_float prec emax).
+  Variable one : fl.
+  Definition leaf_alpha (r : fl) : fl :=
+    if fnan r then Binary.B754_zero prec emax false else if flt r one then r else one.
+  (* the pre-repair rule: T::min(1, r) alone, which returns 1 for a NaN r *)
+  Definition leaf_alpha_old (r : fl) : fl := if flt r one then r else one.
+End LeafAlpha.
+Arguments leaf_alpha {prec emax}.
+Arguments leaf_alpha_old {prec emax}.
+Definition leaf_alphas32 (rs : list Z) : list Z :=
+  map (fun r => bits_of_b32 (leaf_alpha (b32_of_bits 1065353216) (b32_of_bits r))) rs.
+Definition leaf_alphas64 (rs : list Z) : list Z :=
+  map (fun r => bits_of_b64 (leaf_alpha (b64_of_bits 4607182418800017408) (b64_of_bits r))) rs.
